@@ -75,7 +75,8 @@ inductive Err where
   | overflow      -- ErrLengthOverflow
   | unpad         -- ErrPKCS5UnPadding
   | badCode       -- ErrUnavailablePackage from handle (CheckCode)
-  | ecies         -- any error of ecies Decrypt
+  | eciesMsg      -- ecies.ErrInvalidMessage (empty / too short / bad MAC)
+  | eciesKey      -- ecies.ErrInvalidPublicKey (first byte not 2,3,4 / point does not unmarshal)
   | badLength     -- crypto.ErrAesCipherLength (content not made of full AES blocks)
   | shortPlain    -- ErrUnavailablePackage from handle (unpackFrame: plaintext shorter than the code)
   deriving DecidableEq, Repr
@@ -85,7 +86,8 @@ def Err.name : Err → String
   | .overflow => "read-overflow"
   | .unpad => "unpad"
   | .badCode => "handle-unavailable"      -- the same Go error value as .shortPlain
-  | .ecies => "ecies"
+  | .eciesMsg => "ecies-msg"
+  | .eciesKey => "ecies-key"
   | .badLength => "badlength"
   | .shortPlain => "handle-unavailable"
 
@@ -148,6 +150,41 @@ def readConn {σ : Type} (R : Reader σ) (cfg : Cfg) (st : σ) : ReadRes σ :=
         | none => .needMore (6 + len)
         | some (c, st2) => .content c st2 (6 + len)
 
+/-! ### Go primitives that panic when their precondition fails (`none` = the panic)
+
+  The live model is built from these; that it never reaches a `none` is a THEOREM about the guards
+  in front of them (LemoProofs.C15.unpackFixed_no_panic, eciesOpenFixed_no_panic), not a property of
+  the model's shape: with a guard switched off the same definitions do panic
+  (guard_aesLen_needed, guard_codeLen_needed, guard_eciesBlock_needed). -/
+
+/-- `blockMode.CryptBlocks(dst, src)`: "crypto/cipher: input not full blocks" -/
+def cryptBlocks (dec : Bytes → Bytes) (c : Bytes) : Option Bytes :=
+  if c.length % blockSize ≠ 0 then none else some (dec c)
+
+/-- `s[:4]` where `s` is a re-slice of `backing` with capacity `capacity`: Go checks 4 ≤ cap(s) -/
+def sliceTo4 (capacity : Nat) (backing : Bytes) : Option Bytes :=
+  if capacity < 4 then none else some (backing.take 4)
+
+/-- `s[4:]`: Go checks 4 ≤ len(s) -/
+def sliceFrom4 (s : Bytes) : Option Bytes :=
+  if s.length < 4 then none else some (s.drop 4)
+
+/-- `make([]byte, n)` with a signed length: "makeslice: len out of range" when n < 0 -/
+def makeBytes (n : Int) : Option Nat :=
+  if n < 0 then none else some n.toNat
+
+/-- the repair guards present in the code (each one is a commit in /repo) -/
+structure Guards where
+  aesLen : Bool       -- ba190d7  aes.go      `if len(encResult)%blockSize != 0 { return nil, ErrAesCipherLength }`
+  codeLen : Bool      -- 1eafa5e  peer.go     `if len(originData) < 4 { return 0, nil, ErrUnavailablePackage }`
+  eciesBlock : Bool   -- fdba898  ecies.go    `len(c) < rLen + hLen + params.BlockSize`
+  deriving DecidableEq, Repr
+
+/-- the code as it is now -/
+def liveGuards : Guards := { aesLen := true, codeLen := true, eciesBlock := true }
+/-- the code before the repairs -/
+def noGuards : Guards := { aesLen := false, codeLen := false, eciesBlock := false }
+
 /-! ### crypto.AesDecrypt / PKCS5UnPadding / Peer.unpackFrame / Peer.handle -/
 
 /-- `PKCS5UnPadding`; `none` is the Go `nil` return (→ ErrPKCS5UnPadding).
@@ -188,19 +225,36 @@ def unpackFrame (dec : Bytes → Bytes) (content : Bytes) : Unpacked :=
         else if o.length < 4 then .panic .slicePayload   -- originData[4:]  ⇒  [4:len] with len < 4
         else .ok code (o.drop 4)
 
-/-- `Peer.unpackFrame` ∘ `crypto.AesDecrypt` AS CODED NOW: AesDecrypt returns ErrAesCipherLength
-    unless 16 ∣ len (ba190d7); unpackFrame returns ErrUnavailablePackage when fewer than 4 bytes
-    are left after unpadding (1eafa5e). -/
-def unpackFrameFixed (dec : Bytes → Bytes) (content : Bytes) : Unpacked :=
-  if content.length % blockSize ≠ 0 then .err .badLength
+/-- `Peer.unpackFrame` ∘ `crypto.AesDecrypt` with the guards `g`, every panicking primitive kept. -/
+def unpackG (g : Guards) (dec : Bytes → Bytes) (content : Bytes) : Unpacked :=
+  if g.aesLen = true ∧ content.length % blockSize ≠ 0 then .err .badLength            -- ba190d7
   else
-    let d := dec content
-    match unpad d with
-    | none => .err .unpad
-    | some o =>
-      if o.length < 4 then .err .shortPlain
-      else if o.length = 4 then .ok (codeOf o) []
-      else .ok (codeOf o) (o.drop 4)
+    -- origData := make([]byte, len(encResult)); blockMode.CryptBlocks(origData, encResult)
+    match cryptBlocks dec content with
+    | none => .panic .cryptBlocks
+    | some d =>
+      match unpad d with
+      | none => .err .unpad
+      | some o =>
+        if g.codeLen = true ∧ o.length < 4 then .err .shortPlain                        -- 1eafa5e
+        else
+          -- originData[:4]; originData = origData[:index] has cap = len(origData)
+          match sliceTo4 d.length d with
+          | none => .panic .sliceCode
+          | some c4 =>
+            if o.length = 4 then .ok (codeOf c4) []
+            else
+              match sliceFrom4 o with                                                     -- originData[4:]
+              | none => .panic .slicePayload
+              | some p => .ok (codeOf c4) p
+
+/-- `Peer.unpackFrame` ∘ `crypto.AesDecrypt` AS CODED NOW -/
+def unpackFrameFixed (dec : Bytes → Bytes) (content : Bytes) : Unpacked := unpackG liveGuards dec content
+
+/-- bytes requested by AesDecrypt's `make([]byte, len(encResult))`: with guard ba190d7 the function
+    returns before the `make` when the length is not a multiple of the block size -/
+def decAllocG (g : Guards) (content : Bytes) : Nat :=
+  if g.aesLen = true ∧ content.length % blockSize ≠ 0 then 0 else content.length
 
 inductive Handled where
   | deliver (code : Nat) (payload : Bytes)   -- p.newMsgCh <- msg : reaches the dispatcher
@@ -234,26 +288,29 @@ structure Step (σ : Type) where
   out : Outcome σ
   alloc : Nat
 
-def frameStepWith {σ : Type} (h : Bytes → Handled) (R : Reader σ) (cfg : Cfg) (st : σ) : Step σ :=
+def frameStepWith {σ : Type} (h : Bytes → Handled) (da : Bytes → Nat) (R : Reader σ) (cfg : Cfg) (st : σ) : Step σ :=
   match readConn R cfg st with
   | .needMore a => ⟨.needMore, a⟩
   | .err e a => ⟨.err e, a⟩
   | .content c st' a =>
-    -- AesDecrypt: origData := make([]byte, len(encResult))
-    let a' := a + c.length
+    -- AesDecrypt: origData := make([]byte, len(encResult))  (`da c` bytes)
+    let a' := a + da c
     match h c with
     | .panic s => ⟨.panic s, a'⟩
     | .err e => ⟨.err e, a'⟩
     | .heartbeat => ⟨.heartbeat st', a'⟩
     | .deliver code p => ⟨.deliver code p st', a'⟩
 
-def frameStep {σ : Type} (dec : Bytes → Bytes) := frameStepWith (σ := σ) (handle dec)
-def frameStepFixed {σ : Type} (dec : Bytes → Bytes) := frameStepWith (σ := σ) (handleFixed dec)
+def frameStep {σ : Type} (dec : Bytes → Bytes) := frameStepWith (σ := σ) (handle dec) (decAllocG noGuards)
+def frameStepFixed {σ : Type} (dec : Bytes → Bytes) := frameStepWith (σ := σ) (handleFixed dec) (decAllocG liveGuards)
 
 /-! ### the read loop: everything the node does with a connection's bytes -/
 
+/-- position-sensitive checksum of a payload (ties the payload BYTES, not only their number) -/
+def chk (p : Bytes) : Nat := p.foldl (fun h b => (h * 31 + b.toNat) % 4294967296) 7
+
 inductive Ev where
-  | msg (code : Nat) (len : Nat)   -- handed to the dispatcher (ProtocolManager.work)
+  | msg (code : Nat) (len : Nat) (sum : Nat)   -- handed to the dispatcher (ProtocolManager.work)
   | hb
   | needMore                        -- terminal: stream ended / read deadline ⇒ connection closed
   | err (e : Err)                   -- terminal: connection closed
@@ -265,7 +322,7 @@ def Ev.isPanic : Ev → Bool
   | _ => false
 
 def Ev.show : Ev → String
-  | .msg c n => s!"msg:{c}:{n}"
+  | .msg c n k => s!"msg:{c}:{n}:{k}"
   | .hb => "hb"
   | .needMore => "need-more"
   | .err e => "err:" ++ e.name
@@ -274,12 +331,22 @@ def Ev.show : Ev → String
 def runWith {σ : Type} (h : Bytes → Handled) (R : Reader σ) (cfg : Cfg) : Nat → σ → List Ev
   | 0, _ => [.needMore]
   | fuel + 1, st =>
-    match (frameStepWith h R cfg st).out with
+    match (frameStepWith h (fun c => c.length) R cfg st).out with   -- the outcome does not depend on `da`
     | .needMore => [.needMore]
     | .err e => [.err e]
     | .panic s => [.panic s]
     | .heartbeat st' => .hb :: runWith h R cfg fuel st'
-    | .deliver code p st' => .msg code p.length :: runWith h R cfg fuel st'
+    | .deliver code p st' => .msg code p.length (chk p) :: runWith h R cfg fuel st'
+
+/-- bytes requested over the whole read loop (the sum of the steps' `alloc`) -/
+def runAllocWith {σ : Type} (h : Bytes → Handled) (da : Bytes → Nat) (R : Reader σ) (cfg : Cfg) : Nat → σ → Nat
+  | 0, _ => 0
+  | fuel + 1, st =>
+    (frameStepWith h da R cfg st).alloc +
+      (match (frameStepWith h da R cfg st).out with
+       | .heartbeat st' => runAllocWith h da R cfg fuel st'
+       | .deliver _ _ st' => runAllocWith h da R cfg fuel st'
+       | _ => 0)
 
 /-- the read loop on a flat stream (every frame consumes ≥ 7 bytes, so `length + 1` iterations
     always reach the end of the stream) -/
@@ -324,12 +391,12 @@ structure HsStep where
     commit fdba898: the only length check is `len(c) < rLen + hLen + 1`. -/
 def eciesOpen (pointOk macOk : Bytes → Bool) (c : Bytes) : HsOut × Nat :=
   match c with
-  | [] => (.err .ecies, 0)
+  | [] => (.err .eciesMsg, 0)
   | b :: _ =>
-    if b ≠ 2 ∧ b ≠ 3 ∧ b ≠ 4 then (.err .ecies, 0)
-    else if c.length < eciesRLen + eciesHLen + 1 then (.err .ecies, 0)
-    else if !pointOk c then (.err .ecies, 0)
-    else if !macOk c then (.err .ecies, 0)
+    if b ≠ 2 ∧ b ≠ 3 ∧ b ≠ 4 then (.err .eciesKey, 0)
+    else if c.length < eciesRLen + eciesHLen + 1 then (.err .eciesMsg, 0)
+    else if !pointOk c then (.err .eciesKey, 0)
+    else if !macOk c then (.err .eciesMsg, 0)
     else
       let ct := c.length - eciesRLen - eciesHLen
       -- symDecrypt: ct[:BlockSize] re-slices into the tag (cap is large enough);
@@ -337,18 +404,25 @@ def eciesOpen (pointOk macOk : Bytes → Bool) (c : Bytes) : HsOut × Nat :=
       if ct < blockSize then (.panic .makeslice, 0)
       else (.ok (ct - blockSize), ct - blockSize)
 
-/-- AS CODED NOW (fdba898): `len(c) < rLen + hLen + BlockSize` is an invalid message -/
-def eciesOpenFixed (pointOk macOk : Bytes → Bool) (c : Bytes) : HsOut × Nat :=
+/-- the same function with the guard `blockGuard` (fdba898) and the panicking `make` kept:
+    order of the checks as in ecies.go (empty, first byte, length, point, MAC, symDecrypt) -/
+def eciesOpenG (blockGuard : Bool) (pointOk macOk : Bytes → Bool) (c : Bytes) : HsOut × Nat :=
   match c with
-  | [] => (.err .ecies, 0)
+  | [] => (.err .eciesMsg, 0)
   | b :: _ =>
-    if b ≠ 2 ∧ b ≠ 3 ∧ b ≠ 4 then (.err .ecies, 0)
-    else if c.length < eciesRLen + eciesHLen + blockSize then (.err .ecies, 0)
-    else if !pointOk c then (.err .ecies, 0)
-    else if !macOk c then (.err .ecies, 0)
+    if b ≠ 2 ∧ b ≠ 3 ∧ b ≠ 4 then (.err .eciesKey, 0)
+    else if c.length < eciesRLen + eciesHLen + (if blockGuard then blockSize else 1) then (.err .eciesMsg, 0)
+    else if !pointOk c then (.err .eciesKey, 0)
+    else if !macOk c then (.err .eciesMsg, 0)
     else
-      let ct := c.length - eciesRLen - eciesHLen
-      (.ok (ct - blockSize), ct - blockSize)
+      -- symDecrypt: m = make([]byte, len(ct)-params.BlockSize), len(ct) = len(c) - rLen - hLen (Go ints)
+      match makeBytes ((c.length : Int) - (eciesRLen : Int) - (eciesHLen : Int) - (blockSize : Int)) with
+      | none => (.panic .makeslice, 0)
+      | some n => (.ok n, n)
+
+/-- AS CODED NOW (fdba898) -/
+def eciesOpenFixed (pointOk macOk : Bytes → Bool) (c : Bytes) : HsOut × Nat :=
+  eciesOpenG liveGuards.eciesBlock pointOk macOk c
 
 /-- `readHandshakeBuf` with the length limit `lim` (`PackageMaxLen` = 1 GiB before commit 529e8a0,
     `params.MaxPackageLength` since) and the ECIES opener `open_`. -/
@@ -480,5 +554,60 @@ def mutexOfTable : Bool := closeSites.all (fun r => r.guard != .unguarded)
 def roundRobin (k : Nat) : List Nat := (List.replicate (4 * k) (List.range k)).flatten
 
 end Close
+
+/-! ### T2: inventory of the operations that can panic in the modelled functions
+
+  Every slice / index expression, `make`, `panic(`, type assertion and block-cipher call of
+  readConn, handle, unpackFrame, readHandshakeBuf, CheckCode (network/p2p), AesDecrypt,
+  PKCS5UnPadding (common/crypto), Decrypt, symDecrypt (common/crypto/ecies), as extracted from the
+  AST of the compiled sources by `hx c15` on every run (`sitefacts` / `sitefact` op lines; any
+  difference is a `table-mismatch`).  `cover` says which model primitive, guard or argument
+  accounts for the site. -/
+namespace Sites
+
+structure Row where
+  fn : String
+  kind : String
+  expr : String
+  cover : String
+
+def Row.row (r : Row) : String := r.fn ++ "|" ++ r.kind ++ "|" ++ r.expr
+
+def table : List Row :=
+  [
+    ⟨"AesDecrypt", "call", "blockMode.CryptBlocks(origData,encResult)", "primitive cryptBlocks; unreachable panic by guard aesLen (ba190d7): unpackG_live_no_panic"⟩,
+    ⟨"AesDecrypt", "make", "make([]byte,len(encResult))", "length is a len(): never negative; counted by decAllocG"⟩,
+    ⟨"AesDecrypt", "slice", "key[:blockSize]", "session key has 16 bytes (Keccak256(...)[:16]): props assumption"⟩,
+    ⟨"Decrypt", "index", "c[0]", "after `len(c) == 0` check: eciesOpenG `[]` arm"⟩,
+    ⟨"Decrypt", "slice", "K[:params.KeyLen]", "K = concatKDF(..., KeyLen+KeyLen): constant size, outside the model"⟩,
+    ⟨"Decrypt", "slice", "K[params.KeyLen:]", "K = concatKDF(..., KeyLen+KeyLen): constant size, outside the model"⟩,
+    ⟨"Decrypt", "slice", "c[:rLen]", "after the length check len(c) ≥ rLen+hLen+BlockSize (eciesOpenG second test)"⟩,
+    ⟨"Decrypt", "slice", "c[mEnd:]", "mEnd = len(c)-hLen ≥ rLen after the length check"⟩,
+    ⟨"Decrypt", "slice", "c[mStart:mEnd]", "mStart = rLen ≤ mEnd after the length check"⟩,
+    ⟨"Decrypt", "slice", "c[mStart:mEnd]", "mStart = rLen ≤ mEnd after the length check"⟩,
+    ⟨"PKCS5UnPadding", "index", "originData[i]", "index ≤ i < length with 0 ≤ index: model `unpad` (d.drop index)"⟩,
+    ⟨"PKCS5UnPadding", "index", "originData[length-1]", "after `length == 0` check: model `unpad` (getLast?)"⟩,
+    ⟨"PKCS5UnPadding", "slice", "originData[:index]", "0 ≤ index ≤ length after the index<0 check: model `unpad` (d.take index)"⟩,
+    ⟨"handle", "slice", "p.rNodeID[:4]", "NodeID is a 64-byte array"⟩,
+    ⟨"readConn", "call", "binary.BigEndian.Uint32(headBuf[2:])", "headBuf has 6 bytes: model be32"⟩,
+    ⟨"readConn", "make", "make([]byte,len(PackagePrefix)+PackageLength)", "constant 6 (tied by the header-shape check of hx c15)"⟩,
+    ⟨"readConn", "make", "make([]byte,length)", "uint32 length ≤ MaxPackageLength: counted by readConn alloc"⟩,
+    ⟨"readConn", "slice", "PackagePrefix[:]", "constant"⟩,
+    ⟨"readConn", "slice", "headBuf[2:]", "headBuf has 6 bytes"⟩,
+    ⟨"readConn", "slice", "headBuf[:2]", "headBuf has 6 bytes"⟩,
+    ⟨"readHandshakeBuf", "call", "binary.BigEndian.Uint32(buf)", "buf has PackageLength = 4 bytes: model be32"⟩,
+    ⟨"readHandshakeBuf", "make", "make([]byte,2)", "constant"⟩,
+    ⟨"readHandshakeBuf", "make", "make([]byte,PackageLength)", "constant 4"⟩,
+    ⟨"readHandshakeBuf", "make", "make([]byte,length)", "uint32 length ≤ MaxPackageLength (529e8a0): counted by hsStepWith alloc"⟩,
+    ⟨"symDecrypt", "call", "ctr.XORKeyStream(m,ct[params.BlockSize:])", "len(m) = len(ct)-BlockSize = len(src)"⟩,
+    ⟨"symDecrypt", "make", "make([]byte,len(ct)-params.BlockSize)", "primitive makeBytes; unreachable panic by guard eciesBlock (fdba898): eciesOpenG_guarded_no_panic"⟩,
+    ⟨"symDecrypt", "slice", "ct[:params.BlockSize]", "cap(ct) ≥ len(ct)+hLen ≥ BlockSize (re-slices into the tag): never panics"⟩,
+    ⟨"symDecrypt", "slice", "ct[params.BlockSize:]", "len(ct) ≥ BlockSize by guard eciesBlock (before it: the make above panicked first)"⟩,
+    ⟨"unpackFrame", "call", "binary.BigEndian.Uint32(originData[:4])", "4 bytes: model codeOf"⟩,
+    ⟨"unpackFrame", "slice", "originData[4:]", "primitive sliceFrom4; unreachable panic by guard codeLen (1eafa5e)"⟩,
+    ⟨"unpackFrame", "slice", "originData[:4]", "primitive sliceTo4 (bound is the capacity); unreachable: unpad strips ≥ 1 byte, unpackG_live_no_panic"⟩
+  ]
+
+end Sites
 
 end LemoModel.Frame
